@@ -44,7 +44,7 @@ def sh(cmd, **kw):
     return subprocess.run(cmd, **kw)
 
 
-def weave(ws, vcopy):
+def weave(ws, vcopy, only_mods=None):
     """Build the woven copy of /repo's *current working tree* in ws."""
     if os.path.exists(ws):
         shutil.rmtree(ws)
@@ -103,6 +103,8 @@ def weave(ws, vcopy):
         stats["rewritten_lines"] += n
     # (c) harness / spec modules
     for h in registry.HOSTS:
+        if only_mods is not None and not h.get("support") and h["mod"] not in only_mods:
+            continue
         path = os.path.join(ws, h["file"])
         if not os.path.exists(path):
             raise Undecided("lost anchor: host module %s" % h["file"])
@@ -278,34 +280,44 @@ def replay_refuted(ws, vcopy, ob, flags, logdir, reason, failing):
     name = ob["name"]
     out_json = os.path.join(logdir, name + ".playback.json")
     logf = os.path.join(logdir, name + ".playback.log")
-    extra = ["-Z", "concrete-playback", "--concrete-playback=inplace"]
-    # the playback run uses default reach checks off to be quick; same harness, same code
+    extra = ["-Z", "concrete-playback", "--concrete-playback=print"]
+    # same harness, same code; Kani prints the unit test with the concrete kani::any() bytes
     rc, wall, cmd = run_kani(ws, ob["crate"], [ob["harness"]], flags, 1, ob.get("timeout", 900), out_json, logf, extra=extra,
                              mem_gb=ob.get("mem_gb", 40))
     gen = open(logf).read()
-    tests = re.findall(r"kani_concrete_playback_\w+", gen)
-    tests = sorted(set(tests))
+    blocks = re.findall(r"```\n(.*?)```", gen, flags=re.S)
     native_out, reproduced, test_src = "", False, ""
-    if tests:
-        # collect generated test source from the harness copy
-        hsrc = None
-        for h in registry.HOSTS:
-            p = os.path.join(vcopy, h["src"])
-            if os.path.exists(p) and tests[0] in open(p).read():
-                hsrc = p
-        if hsrc:
-            text = open(hsrc).read()
-            hfn = ob["harness"].split("::")[-1]
-            test_src = "\n".join(t for t in re.findall(r"/// Test generated for harness.*?\n}\n", text, flags=re.S) if ("`%s`" % ob["harness"]) in t or ("_%s_" % hfn) in t)
+    # the harness module file of this obligation (copy next to the woven tree)
+    parts = ob["harness"].split("::")
+    hsrc, rel = None, parts[-1]
+    for h in registry.HOSTS:
+        if h["mod"] in parts[:-1] and h["crate"] == ob["crate"]:
+            hsrc = os.path.join(vcopy, h["src"])
+            rel = "::".join(parts[parts.index(h["mod"]) + 1:])
+    tests = []
+    if blocks and hsrc and os.path.exists(hsrc):
+        with open(hsrc, "a") as f:
+            f.write("\n// ---- concrete playback tests appended by vlib/runner.py ----\n")
+            for i, b in enumerate(blocks[:6]):
+                m = re.search(r"fn (kani_concrete_playback_\w+)\(\)", b)
+                if not m:
+                    continue
+                tname = "%s_%d" % (m.group(1), i)
+                b = b.replace(m.group(1), tname)
+                # the harness function may live in a sub-module of the harness file
+                b = re.sub(r"kani::concrete_playback_run\(concrete_vals, \w+\)", "kani::concrete_playback_run(concrete_vals, %s)" % rel, b)
+                f.write(b + "\n")
+                tests.append(tname)
+                test_src += b + "\n"
         env = dict(os.environ, CARGO_NET_OFFLINE="true", CARGO_TERM_COLOR="never", RUST_BACKTRACE="0")
-        for t in tests[:6]:
+        for t in tests:
             pc = ["cargo", "kani", "playback", "-Z", "concrete-playback", "-p", ob["crate"], "--", t]
             try:
                 p = subprocess.run(pc, cwd=ws, env=env, stdout=subprocess.PIPE, stderr=subprocess.STDOUT, timeout=1800)
                 out = p.stdout.decode(errors="replace")
             except subprocess.TimeoutExpired:
                 out = "native playback timed out"
-            keep = [l for l in out.split("\n") if re.search(r"panicked|assert|VERIF|test result|^test |left:|right:|overflow|unreachable|index out", l)]
+            keep = [l for l in out.split("\n") if re.search(r"panicked|assert|VERIF|test result|^test |left:|right:|overflow|unreachable|index out|^error", l)]
             native_out += "\n".join(keep[:60]) + "\n"
             if re.search(r"test result: FAILED|panicked at", out):
                 reproduced = True
@@ -362,9 +374,11 @@ def select(prop, tier, only, seed=0):
         if tier == "quick" and (ob.get("tier", "quick") != "quick" or ob.get("prop_tiers", {}).get(prop) == "thorough"):
             skipped.append(ob["name"])
             continue
-        if tier == "quick" and "part" in ob and ob["part"] != seed % 2:
-            skipped.append(ob["name"])
-            continue
+        if tier == "quick" and "part" in ob:
+            k, n = ob["part"] if isinstance(ob["part"], tuple) else (ob["part"], 2)
+            if seed % n != k:
+                skipped.append(ob["name"])
+                continue
         obs.append(ob)
     select.skipped = skipped
     return obs
@@ -429,6 +443,19 @@ def main():
             log("[%s] kani: crate=%s flags=%s harnesses=%d jobs=%d timeout=%ds" % (prop, crate, fg, len(gobs), jobs, tmo))
             rc, wall, cmd = run_kani(ws, crate, [o["harness"] for o in gobs], flags, jobs, tmo, out_json, logf, mem_gb=max(16, 2 * mem))
             parsed = parse_export(out_json)
+            if not parsed and any(l.startswith("error") for l in open(logf).read().split("\n")):
+                # a harness module that this run does not need may have lost its anchor (e.g. a helper's signature
+                # changed): retry once with only the harness modules of the selected obligations woven in
+                mods = set()
+                for o in obs:
+                    mods.update(x for x in o["harness"].split("::")[:-1])
+                log("[%s] woven copy did not compile; retrying with the minimal harness set %s" % (prop, sorted(mods)))
+                try:
+                    weave(ws, vcopy, only_mods=mods)
+                    rc, wall, cmd = run_kani(ws, crate, [o["harness"] for o in gobs], flags, jobs, tmo, out_json, logf, mem_gb=max(16, 2 * mem))
+                    parsed = parse_export(out_json)
+                except Undecided:
+                    parsed = {}
             tools = parsed.pop("__tools__", tools) if parsed else tools
             if not parsed:
                 lines = open(logf).read().split("\n")
@@ -576,7 +603,7 @@ def write_evidence(prop, tier, seed, results, wall, weave_stats, tools, errors, 
         "symex_time_s": round(symex, 2),
         "exhaustive": False,
         "not_run_in_this_tier": getattr(select, "skipped", []),
-        "partition": ("quick tier runs the obligation family slice VERIF_SEED %% 2 = %d; the thorough tier runs all" % (seed % 2)) if getattr(select, "skipped", []) else "all obligations of the property ran",
+        "partition": ("quick tier runs the slice of each partitioned obligation family selected by VERIF_SEED=%d (every obligation is in exactly one slice; the thorough tier runs all)" % seed) if getattr(select, "skipped", []) else "all obligations of the property ran",
         "tools": tools,
         "weave": weave_stats,
         "repo_head": git_head(),
